@@ -950,7 +950,7 @@ func TestVerifC03(t *testing.T) {
 	defer o.close()
 	nh := 42
 	if verifThorough() {
-		nh = 700
+		nh = 300
 	}
 	seed := verifSeed()
 	r := &vrng{s: seed ^ 0xC03C03}
@@ -958,4 +958,141 @@ func TestVerifC03(t *testing.T) {
 		h := c3History(t, i, r.next(), i*5)
 		o.emit(h)
 	}
+}
+
+// TestVerifC03Conc: the verifier, Cleanup and GetAll called concurrently (as the dispatch loop, the cleanup ticker, the own
+// heartbeat goroutine and publicrpc do).  Run with -race in the thorough tier.  Monitors the cap on every snapshot and that
+// every stored entry is one an accepted call returned, under the signer's address and the sending peer.
+func TestVerifC03Conc(t *testing.T) {
+	o := verifOut(t)
+	defer o.close()
+	r := &vrng{s: verifSeed() ^ 0xC03C0C}
+	w := c3NewWorld(r, 5, 40)
+	gst := node_common.NewGuardianSetState(nil)
+	gs := &node_common.GuardianSet{Keys: w.addrs[:3], Index: 1}
+	gst.Set(gs)
+	type acc struct {
+		a  common.Address
+		p  peer.ID
+		hb *gossipv1.Heartbeat
+	}
+	nworkers, per := 8, 150
+	if verifThorough() {
+		per = 1500
+	}
+	type job struct {
+		from    peer.ID
+		addr    []byte
+		payload []byte
+		sig     []byte
+		signer  common.Address
+		valid   bool
+	}
+	jobs := make([][]job, nworkers)
+	now := time.Now().UnixNano()
+	for wk := 0; wk < nworkers; wk++ {
+		for i := 0; i < per; i++ {
+			m := r.below(3)
+			ts := now
+			if r.chance(1, 5) {
+				ts = now - int64(2*time.Minute)
+			}
+			pl := w.hbPayload(ts, 0)
+			j := job{from: w.peers[r.below(len(w.peers))], addr: w.addrs[m].Bytes(), payload: pl, sig: w.sign(m, cat(c3HbPrefix, pl)), signer: w.addrs[m], valid: true}
+			if r.chance(1, 4) { // outsider, or member signing with another member's address
+				j.valid = false
+				if r.chance(1, 2) {
+					j.addr, j.sig = w.addrs[3].Bytes(), w.sign(3, cat(c3HbPrefix, pl))
+				} else {
+					j.addr = w.addrs[(m+1)%3].Bytes()
+				}
+			}
+			jobs[wk] = append(jobs[wk], j)
+		}
+	}
+	results := make([][]acc, nworkers)
+	var mon []string
+	monC := make(chan string, 1024)
+	done := make(chan struct{})
+	obsDone := make(chan struct{})
+	snaps := 0
+	go func() { // observer: cleanup ticker + readers
+		defer close(obsDone)
+		for {
+			select {
+			case <-done:
+				return
+			default:
+			}
+			gst.Cleanup()
+			for a, row := range gst.GetAll() {
+				if len(row) > node_common.MaxNodesPerGuardian {
+					select {
+					case monC <- fmt.Sprintf("cap: guardian %s has %d heartbeat entries under concurrent calls", a.Hex(), len(row)):
+					default:
+					}
+				}
+			}
+			snaps++
+		}
+	}()
+	wg := make(chan int, nworkers)
+	for wk := 0; wk < nworkers; wk++ {
+		go func(wk int) {
+			defer func() { wg <- wk }()
+			for _, j := range jobs[wk] {
+				func() {
+					defer func() {
+						if rr := recover(); rr != nil {
+							select {
+							case monC <- fmt.Sprintf("panic in processSignedHeartbeat: %v", rr):
+							default:
+							}
+						}
+					}()
+					hb, err := processSignedHeartbeat(j.from, &gossipv1.SignedHeartbeat{Heartbeat: j.payload, Signature: j.sig, GuardianAddr: j.addr}, gs, gst, false)
+					if err == nil && !j.valid {
+						select {
+						case monC <- "heartbeat had an effect (accepted under concurrency) although it is not validly signed by a member under the address it claims":
+						default:
+						}
+					}
+					if err == nil {
+						results[wk] = append(results[wk], acc{j.signer, j.from, hb})
+					}
+				}()
+			}
+		}(wk)
+	}
+	for i := 0; i < nworkers; i++ {
+		<-wg
+	}
+	close(done)
+	<-obsDone
+	close(monC)
+	for m := range monC {
+		mon = append(mon, m)
+	}
+	known := map[*gossipv1.Heartbeat]acc{}
+	naccepted := 0
+	for _, rs := range results {
+		for _, a := range rs {
+			known[a.hb] = a
+			naccepted++
+		}
+	}
+	entries, maxRow := 0, 0
+	for a, row := range gst.GetAll() {
+		if len(row) > maxRow {
+			maxRow = len(row)
+		}
+		for p, hb := range row {
+			entries++
+			k, ok := known[hb]
+			if !ok || k.a != a || k.p != p {
+				mon = append(mon, fmt.Sprintf("table: entry %s/%x is not a heartbeat an accepted call returned for that signer and peer", a.Hex(), string(p)))
+			}
+		}
+	}
+	o.emit(map[string]interface{}{"k": "conc", "workers": nworkers, "calls": nworkers * per, "accepted": naccepted, "entries": entries, "max": maxRow, "snapshots": snaps, "mon": mon})
 }
